@@ -33,6 +33,9 @@ package aesgcm256cfs
 //@   trace ReadCloser.Close as CLOSE
 //@   at_call ReadCloser.Close requires $recv == stream
 //@   trace_ensures true : ^READALL CLOSE
+// whatever was stored - also nothing at all - goes through Decrypt, and only its verdict makes a reader
+//@   trace Cipher.Decrypt as DECRYPT
+//@   trace_ensures err == nil : ^READALL CLOSE DECRYPT $
 
 //@ func (*reader).Read [C05]
 //@   modifies aesgcm256cfs.reader.data, E:uint8
@@ -46,6 +49,9 @@ package aesgcm256cfs
 //@   ensures len(w.data) == old(len(w.data)) + len(p)
 //@   ensures forall(k, 0 <= k && k < old(len(w.data)) ==> w.data[k] == old(w.data[k]))
 //@   ensures forall(k, 0 <= k && k < len(p) ==> w.data[old(len(w.data)) + k] == old(p[k]))
+// io.Writer: the buffer handed in is not retained (callers such as io.Copy reuse it): the chunks
+// live in the writer's own array, the old one or a newly allocated one
+//@   ensures len(p) == 0 || arr(w.data) == old(arr(w.data)) || fresh(arr(w.data))
 
 // Close writes Encrypt(key, all chunks) once and closes the base stream.
 //@ func (*writer).Close [C05]
